@@ -279,6 +279,41 @@ def merge_shards(results):
     return out
 
 
+def native_crosscheck(results, tier, seed, known, prop, repo=REPO):
+    """Differential cross-check (bounded, not proof): every harness is also executed natively (CPython, real library) on seeded
+    random inputs; a clause that the symbolic engine discharged but that evaluates to False natively means the engine, a
+    builtin model or a spec twin is wrong -> checker error, never a violation."""
+    if os.environ.get("PYVC_NO_CROSSCHECK"):
+        return {"skipped": True}, []
+    count, budget = (1500, 20) if tier == "thorough" else (40, 1.5)
+    reqs, keep = [], []
+    for r in results:
+        if r.get("clauses") and not str(r.get("bounded") or "").startswith("native") and r.get("kind") != "native":
+            reqs.append({"module": r["module"], "name": r["name"], "count": count, "seed": seed, "budget_s": budget})
+            keep.append(r)
+    if not reqs:
+        return {"harnesses": 0}, []
+    env = dict(os.environ)
+    env["PYVC_REPO"] = repo
+    try:
+        p = subprocess.run([NATIVE_PY, os.path.join(VERIF, "helper", "native.py"), "fuzz", "--repo", repo],
+                           input="\n".join(json.dumps(q) for q in reqs) + "\n", capture_output=True, text=True, env=env,
+                           timeout=len(reqs) * (budget + 5) + 120)
+        outs = [json.loads(l) for l in p.stdout.splitlines() if l.strip().startswith("{")]
+    except Exception as e:  # noqa
+        return {"error": f"{type(e).__name__}: {e}"}, []
+    problems = []
+    ran = 0
+    for r, o in zip(keep, outs):
+        ran += o.get("ran", 0)
+        discharged = {c["label"] for c in r["clauses"] if c["discharged"] == c["paths"]}
+        for label, args in (o.get("failed") or {}).items():
+            ident = f"{r['name']}/{label}"
+            if label in discharged and match_known(known, prop, ident, None) is None:
+                problems.append(f"clause {ident} was discharged symbolically but is False natively on inputs {args}")
+    return {"harnesses": len(reqs), "native_runs": ran, "inputs_per_harness": count, "answers": len(outs)}, problems
+
+
 def run_canaries(prop, tier):
     """must-fail self-check: seeded changes known to break `prop` are applied to a scratch copy; the check must alarm.
     quick: the fastest seed (if it takes <= 20 s); thorough: all of them."""
@@ -381,8 +416,13 @@ def finish(prop, tier, seed, results, listing_errors, t0, quiet, repo, canaries=
             continue
         violations.append((ident, rp, confirmed))
 
+    xcheck = {}
+    if canaries and not violations and not errors and not undecided:
+        xcheck, xproblems = native_crosscheck(results, tier, seed, known, prop, repo)
+        for xp in xproblems:
+            errors.append("native cross-check: " + xp)
     canary_results = []
-    if canaries and not violations and not failed:
+    if canaries and not violations:
         canary_results = run_canaries(prop, tier)
         for c in canary_results:
             if c["status"] == "missed":
@@ -411,6 +451,7 @@ def finish(prop, tier, seed, results, listing_errors, t0, quiet, repo, canaries=
             "checker_errors": errors,
             "known_findings_matched": known_lines,
             "must_fail_canaries": canary_results,
+            "native_crosscheck_bounded": xcheck,
             "notes": sorted(notes),
             "explanation": "obligation = (contract harness, clause); discharged = proved on every path of the symbolic execution of the real functions",
         },
